@@ -43,7 +43,8 @@ PROPS["C06"] = dict(
           "sequence numbers starting near 65535; fed to rtp.NewDemuxer with a recording FrameWriter and a sentinel unit. Loss cases: 2-4 "
           "fragmented units, faults = every single-loss position, pairs, runs, adjacent swaps, random multi-loss. A case is distinct by "
           "(codec, size class, set of packet kinds used, unit count, seq wrap) resp. (codec, fault pattern by fragment kind, unit count)"
-          ' Sequences start anywhere in the 32-bit RTP timestamp range: a fifth of them cross 2^31 and a fifth wrap past 2^32 inside the sequence (differences are modular)'),
+          ' Sequences start anywhere in the 32-bit RTP timestamp range: a fifth of them cross 2^31 and a fifth wrap past 2^32 inside the sequence (differences are modular)'
+          ' One case in seven uses runs of 14-63 consecutive AAC AUs grouped up to 64 per packet (AU-headers-length beyond one byte)'),
     level_text=("Generated workload + fault enumeration (loss/reorder positions inside fragmented units) against the real depacketisers; "
                 "oracle = list equality with the source units / only-whole-units-in-order under loss, PTS arithmetic per RTP timestamp"),
     level_note="trusted: the harness packetiser (kit/rtpgen.go); DTS is not judged (not in the statement); a sender report arriving mid-stream re-bases the clock (ipchub synchronises to the first report) - outside the quantifier, unjudged",
@@ -78,7 +79,8 @@ PROPS["C02"] = dict(
           "STAP-A/AP and FU-A/FU; (1) sequential: one consumer joins after exactly k packets for EVERY k of every sequence; (2) forced "
           "orderings of one publish with one join through gates at join.begin/snapshotted/registered and write.cached/sent, cache on/off; "
           "(3) seeded-delay stress of several joins racing a running publisher. cache_gop on and off, H.264 and H.265. A case is distinct "
-          "by its sequence shape / forced ordering / join-window size"),
+          "by its sequence shape / forced ordering / join-window size"
+          " FLV sequences draw the AAC AudioTagHeader byte from the eight values ipchub's packetiser writes (mono/stereo x 5.5/11/22/44 kHz)"),
     level_text=("Reference-model monitor: for every join the received sequence must be P ++ G ++ L for some cut inside the join window "
                 "(computed by a reference cache model from the generator's ground truth); exhaustive in the join position, schedule "
                 "enumeration for the publish x join race"),
@@ -96,7 +98,8 @@ PROPS["C01"] = dict(
           "oracle (record == published[attach:detach]) and a differential rerun of one consumer alone; (2) racy scenarios: publisher, attach "
           "and detach goroutines with seeded delays at 8 hook points, interval oracle on the shared logical clock. Distinct by (packet count "
           "class, consumer count)"
-          ' Transports part: one stream is played over rtsp-tcp, ws-rtsp, wsp, rtsp-udp, multicast (shard 0), http-flv and ws-flv at once; the published sequence contains a back-to-back burst of 48 packets of 9-15 KB (more than the session write buffer within one flush tick); a torn interleaved byte stream is reported as such'),
+          ' Transports part: one stream is played over rtsp-tcp, ws-rtsp, wsp, rtsp-udp, multicast (shard 0), http-flv and ws-flv at once; the published sequence contains a back-to-back burst of 48 packets of 9-15 KB (more than the session write buffer within one flush tick); a torn interleaved byte stream is reported as such'
+          ' Multicast: an earlier member plays and leaves before the judged member joins (the proxy is restarted per generation); an attached datagram consumer that is given nothing at all is a violation'),
     level_text=("Recorded-history monitor over the real fan-out path: at-most-once, publish order, byte identity (hash at publish vs hash at "
                 "delivery vs hash after the run), completeness over the attached interval, 1-vs-N independence"),
     level_note=("core (media package) part; per-transport delivery (RTSP/TCP, UDP, ws-rtsp, WSP, HTTP-FLV) is exercised at service level by "
@@ -111,7 +114,8 @@ PROPS["C04"] = dict(
     rule=("per pattern: N=2500-17500 unique packets (video with a key frame every G video packets, G in {1,2,7,30,250,999,1000,1001,3000,none}, "
           "audio every 4th) published to media.Stream (RTP path, or FLV tags through WriteFlvTag) with four consumers attached: healthy, "
           "stalled (blocks inside Consume at PRNG delivery counts, released when the publisher reaches PRNG indices; long and short stalls), "
-          "slow (sleeps per packet), panicking (k-th delivery). Distinct by (G, path, cache, number of stalls)"),
+          "slow (sleeps per packet), panicking (k-th delivery). Distinct by (G, path, cache, number of stalls)"
+          ' Patterns alternate H.264 and H.265 streams; a third of them start shortly below 2^32 so that the RTP timestamp wraps a few hundred packets in'),
     level_text=("Runtime monitor over the real per-consumer queues: publisher completion (goroutine state decides on watchdog), healthy record exact, "
                 "stalled queue length sampled after every write against 1000+G, gap alignment of the stalled record to key-frame starts, "
                 "panicking consumer detached and closed"),
@@ -130,7 +134,8 @@ PROPS["C05"] = dict(
           "returns a closed stream, Count equals live set); (2) forced orderings Regist x Regist (gate between load and store), "
           "Unregist(retired) after Regist(successor), Close then Get; (3) sequential random histories (5-40 steps) with Get/Count/Infos "
           "against the model after every step; (4) the idle-close decision for 6 audience kinds x 2 close reasons. Distinct by history shape"
-          " Spellings part: generated non-canonical spellings of one path (case, blanks, missing leading slash, doubled slashes, '.' elements and 'x/..' detours anywhere including as the last element), accepted by an independent canonicaliser, must all name one registry key (create/lookup/replace/unregister/count under three different spellings)"),
+          " Spellings part: generated non-canonical spellings of one path (case, blanks, missing leading slash, doubled slashes, '.' elements and 'x/..' detours anywhere including as the last element), accepted by an independent canonicaliser, must all name one registry key (create/lookup/replace/unregister/count under three different spellings)"
+          " Idle cases include 'HLS segment requested just now' (playlist refresh followed by a segment request) next to 'playlist requested just now'"),
     level_text=("Linearizability checking of recorded concurrent histories (porcupine) against a 10-line sequential model of the registry, "
                 "plus forced schedules and model equality at quiescent points"),
     level_note="library level (media package); GetOrCreate races and the REST listing/DELETE are exercised in C20 / service-level scenarios",
@@ -147,7 +152,8 @@ PROPS["C12"] = dict(
           "to length 2 (quick) / 3 (thorough) on the full alphabet, exhaustive to length 4 / 5 on a 10-symbol alphabet with one representative per "
           "automaton edge, plus 500 (quick) / 30000 (thorough) seeded random sequences of length 3-12; one fresh real connection per sequence (TCP; every 7th over ws-rtsp) to "
           "the in-process server while a real RECORD publisher feeds the source stream. Distinct by (transport, sequence)"
-          " Multicast (shard 0): members SETUP RTP/AVP;multicast one after another on one stream and leave by TEARDOWN or disconnect; after each the stream's consumer count and the connection counter are back"),
+          " Multicast (shard 0): members SETUP RTP/AVP;multicast one after another on one stream and leave by TEARDOWN or disconnect; after each the stream's consumer count and the connection counter are back"
+          ' Invalid transports: eight malformed / contradictory Transport headers, alone and followed by a well-formed parameter, as alphabet symbols and in directed DESCRIBE|ANNOUNCE, SETUP(bad), PLAY|RECORD, OPTIONS sequences'),
     level_text=("Reference-automaton monitor over real sockets: per request exactly one response (decided by CSeq order against an OPTIONS probe, "
                 "never by timeout), CSeq echo, constant Session id, status class and successor state per the automaton, no media before 200 PLAY, "
                 "no registration before 200 RECORD, counters/registry/consumers back to baseline after disconnect"),
@@ -183,7 +189,8 @@ PROPS["C11"] = dict(
           "segment, /api/v1 GET users / POST routes / DELETE stream; plus an attacker that derives the process counter from a disclosed "
           "Session id and tries 257 computed tokens, and a WSP data channel joining a foreign control channel. Distinct by "
           "(entry, action, credential kind, reference decision, outcome)"
-          " A third of the HTTP-borne probes additionally claim to be the administrator in request headers a normal client never sends (the server's internal identity header under both spellings, X-Forwarded-User, Username); the reference verdict depends on the token alone"),
+          " A third of the HTTP-borne probes additionally claim to be the administrator in request headers a normal client never sends (the server's internal identity header under both spellings, X-Forwarded-User, Username); the reference verdict depends on the token alone"
+          ' Four source paths: three inside the subtrees the rights name and one proper ancestor of them (two levels up)'),
     level_text=("Reference-monitor oracle: allow(user, action, path) from the table as last saved (C16 reference matcher) versus the outcome class "
                 "(granted = media bytes / 2xx / registered stream; refused = 401/403) seen by scripted clients on real sockets"),
     level_note=("'a token cannot be computed from disclosed identifiers' is decided only for the implemented attacker strategy; stream query APIs "
